@@ -5,7 +5,7 @@
 (* does not stop at the first unexplained line: their indices are collected  *)
 (* in `bad' (so that known findings can be told from new violations).        *)
 EXTENDS Geometry, TraceLib
-VARIABLES l, c, bad
+VARIABLES l, c, sv, bad      \* sv: the views of the current view subset (events Sub...)
 
 NoCfg == [N |-> 0]
 CfgOf(r) == [N |-> r.N, R |-> r.R, span |-> r.span, ge |-> r.ge, maxDelta |-> r.maxDelta, mash |-> r.mash,
@@ -13,9 +13,9 @@ CfgOf(r) == [N |-> r.N, R |-> r.R, span |-> r.span, ge |-> r.ge, maxDelta |-> r.
              minSeg |-> r.minSeg, maxSeg |-> r.maxSeg]
 
 \* the implementation's own description of the data must be the documented Michelogram
-ConfigOk(r) ==
+DescOk(r) ==
   LET cc == CfgOf(r) IN
-  /\ LegalConfig(cc)
+  /\ LegalConfigA(cc)
   /\ r.numViews = NV(cc) \div cc.mash /\ r.minView = 0
   /\ r.minTof = MinTof(cc) /\ r.maxTof = MaxTof(cc)
   /\ Len(r.segs) = cc.maxSeg - cc.minSeg + 1
@@ -24,6 +24,28 @@ ConfigOk(r) ==
        /\ s = cc.minSeg + i - 1
        /\ r.segs[i][2] = SegMinRD(cc, s) /\ r.segs[i][3] = SegMaxRD(cc, s)
        /\ r.segs[i][4] = 0 /\ r.segs[i][5] = NumAx(cc, s) - 1
+  \* get_num_segments, get_num_tangential_poss, get_num_tof_poss, get_num_non_tof_sinograms, get_num_sinograms, size_all
+  \* (fields absent from traces recorded before these were added)
+  /\ Has(r, "sizeAll") =>
+       /\ r.numSegs = cc.maxSeg - cc.minSeg + 1 /\ r.numTang = NumTangOf(cc) /\ r.numTof = NumTof(cc)
+       /\ r.numNonTofSinos = NumNonTofSinos(cc) /\ r.numSinos = NumSinos(cc)
+       /\ << r.sizeAll[1], r.sizeAll[2], r.sizeAll[3], r.sizeAll[4] >> = SizeAllWide(cc)
+\* a Config line written after the object was changed in place: the new description is the old one with the
+\* documented effect of the change (and the change was a legal one)
+ChangeOk(r) ==
+  Has(r, "after") =>
+    LET a == r.after  pc == CfgOf(a.prev) IN
+    /\ DescOk(a.prev)
+    /\ SetArgsOk(pc, a.what, a.x, a.y)
+    /\ CfgOf(r) = ApplySet(pc, a.what, a.x, a.y)
+ConfigOk(r) == DescOk(r) /\ ChangeOk(r)
+\* construct_proj_data_info / ProjDataInfoGE document these requests as errors (and no others)
+RequestLegal(r) ==
+  /\ r.maxDelta <= r.R - 1
+  /\ (IF r.ge THEN r.maxDelta >= 1 ELSE r.span >= 1 /\ r.span <= 2 * r.R - 1 /\ r.maxDelta >= (r.span - 1) \div 2)
+  /\ (r.maxBins < 0 \/ r.numTang <= r.maxBins)
+  /\ (r.tofMash <= 0 \/ r.maxT <= 0 \/ (r.tofMash <= r.maxT /\ (r.maxT \div r.tofMash) % 2 = 1))
+  /\ (r.geom = "Cylindrical" \/ r.mash = 1)
 
 BinOfRec(r) == Bin(r.seg, r.ax, r.view, r.tang, r.tof)
 PairOfList(x) == << x[1], x[2], x[3], x[4], x[5] >>
@@ -32,9 +54,59 @@ Assigned(p, b) == \E same \in BOOLEAN :
                     /\ IsInPlaneOf(c, p[1], p[3], b.view, b.tang, same)
                     /\ BinGiven(c, p, b.view, b.tang, same) = b
 
+\* the list r.pairs (with the reported count r.n) is the list of pairs of bin b of configuration cf
+PairsExplain(cf, b, r, spatialOnly) ==
+  LET \* spatial-only lists carry timing position 0; they must be assigned to the bin's spatial part
+      bb == IF spatialOnly THEN [b EXCEPT !.tof = 0] ELSE b
+      cc == IF spatialOnly THEN [cf EXCEPT !.tofMash = 0] ELSE cf
+      P == { CanonPair(PairOfList(r.pairs[i])) : i \in 1..Len(r.pairs) } IN
+  /\ r.n = Len(r.pairs)
+  /\ r.n = NumPairs(cf, b, spatialOnly)
+  /\ Cardinality(P) = Len(r.pairs)
+  /\ \A i \in 1..Len(r.pairs) :
+       LET p == PairOfList(r.pairs[i]) IN
+       \E same \in BOOLEAN :
+          /\ IsInPlaneOf(cc, p[1], p[3], bb.view, bb.tang, same)
+          /\ BinGiven(cc, p, bb.view, bb.tang, same) = bb
+\* the number of detection position pairs of a bin, counted from the definition of TOF mashing (any mashing factor)
+NumPairsExact(cf, b, spatialOnly) ==
+  Cardinality(RingPairsFast(cf, b.seg, b.ax)) * cf.mash *
+    (IF spatialOnly THEN 1 ELSE Cardinality({ t \in UnmashedT(cf) : TofBin(cf, t) = b.tof }))
+\* a view subset of the current configuration
+SubOk(r) ==
+  /\ LegalViews(c, r.views)
+  /\ r.numViews = Len(r.views) /\ r.minView = 0 /\ r.maxView = Len(r.views) - 1
+  /\ r.orgViews = r.views
+  /\ r.full = (Len(r.views) = NumViewsOf(c))
+  /\ r.minSeg = c.minSeg /\ r.maxSeg = c.maxSeg /\ r.minTang = c.minTang /\ r.maxTang = c.maxTang
+  /\ r.minTof = MinTof(c) /\ r.maxTof = MaxTof(c)
+  /\ r.numNonTofSinos = NumNonTofSinos(c) /\ r.numSinos = NumSinos(c)
+  /\ << r.sizeAll[1], r.sizeAll[2], r.sizeAll[3], r.sizeAll[4] >> = SubSizeAllWide(c, r.views)
+\* scanners: what the get_ members report obeys the documented quotients/products; check_consistency says yes only
+\* if the integer relations hold, and (cylindrical non-TOF scanners: nothing else is checked) says yes if they hold;
+\* every predefined scanner is consistent
+ScannerOk(r) ==
+  /\ ~r.err
+  /\ ScDerivedOk(r.s)
+  /\ r.consistent => ScIntFactsOk(r.s)
+  /\ (ScIntFactsOk(r.s) /\ r.s.geom = "Cylindrical" /\ ~r.s.tofReady /\ ~r.predefined) => r.consistent
+  /\ r.predefined => r.consistent
+ScIntFields == { "N", "R", "maxBins", "defBins", "tBlocksPerBucket", "aBlocksPerBucket", "tCrysPerBlock", "aCrysPerBlock",
+                 "tCrysPerSU", "aCrysPerSU", "layers" }
+ScFxFields == { "radiusFx", "doiFx", "ringSpacingFx", "binSizeFx", "tiltFx" }
+\* "comparison operator": equal scanners have equal parameters; identical parameters compare equal
+ScCmpOk(r) ==
+  LET intsEq == \A f \in ScIntFields : r.a[f] = r.b[f]
+      tofEq == (r.a.tofReady /\ r.b.tofReady) => r.a.maxT = r.b.maxT
+      fxSame == \A f \in ScFxFields : r.a[f] = r.b[f]
+      fxFar == \E f \in ScFxFields : Abs(r.a[f] - r.b[f]) >= 1024 IN
+  /\ r.ne = ~r.eq
+  /\ r.eq => (intsEq /\ tofEq /\ ~fxFar)
+  /\ (intsEq /\ fxSame /\ r.a.tofReady = r.b.tofReady /\ r.a.maxT = r.b.maxT /\ r.a.geom = r.b.geom) => r.eq
+
 Explains(r) ==
   CASE r.e = "Config" -> ConfigOk(r)
-    [] r.e = "ConfigRejected" -> TRUE
+    [] r.e = "ConfigRejected" -> (Has(r, "numTang") => ~RequestLegal(r))     \* only requests documented as errors may be refused
     [] r.e = "RP" ->
          LET d == r.r2 - r.r1 IN
          IF CoveredRD(c, d) THEN r.ok /\ r.seg = SegOfRD(c, d) /\ r.ax = AxOf(c, r.seg, r.r1, r.r2)
@@ -51,37 +123,66 @@ Explains(r) ==
             /\ IsInPlaneOf(c, r.d1, r.d2, r.view, r.tang, same)
             /\ LET b == BinGiven(c, p, r.view, r.tang, same) IN
                IF b = NoBin THEN ~r.ok ELSE r.ok /\ b = BinOfRec(r)
-    [] r.e = "BP" ->
-         LET b == BinOfRec(r)
-             \* spatial-only lists carry timing position 0; they must be assigned to the bin's spatial part
-             bb == IF r.spatialOnly THEN [b EXCEPT !.tof = 0] ELSE b
-             cc == IF r.spatialOnly THEN [c EXCEPT !.tofMash = 0] ELSE c
-             P == { CanonPair(PairOfList(r.pairs[i])) : i \in 1..Len(r.pairs) } IN
-         /\ r.n = Len(r.pairs)
-         /\ r.n = NumPairs(c, b, r.spatialOnly)
-         /\ Cardinality(P) = Len(r.pairs)
-         /\ \A i \in 1..Len(r.pairs) :
-              LET p == PairOfList(r.pairs[i]) IN
-              \E same \in BOOLEAN :
-                 /\ IsInPlaneOf(cc, p[1], p[3], bb.view, bb.tang, same)
-                 /\ BinGiven(cc, p, bb.view, bb.tang, same) = bb
+    [] r.e = "BP" -> PairsExplain(c, BinOfRec(r), r, r.spatialOnly)
     [] r.e = "BD" -> Assigned(<< r.d1, r.r1, r.d2, r.r2, r.t >>, BinOfRec(r))
+    [] r.e = "BN" -> r.n = NumPairsExact(c, BinOfRec(r), r.spatialOnly)
+    [] r.e = "SetRejected" -> ~(DescOk(r.prev) /\ SetArgsOk(CfgOf(r.prev), r.what, r.x, r.y))
+    \* ---- view subsets: the current configuration c is the full data, sv the views of the subset
+    [] r.e = "Sub" -> SubOk(r)
+    [] r.e = "SubRejected" -> ~LegalViews(c, r.views)
+    [] r.e = "SubOrg" -> /\ sv # <<>> /\ r.view \in 0..(Len(sv) - 1)
+                         /\ Bin(r.oseg, r.oax, r.oview, r.otang, r.otof) = SubOrgBin(sv, BinOfRec(r))
+    [] r.e = "SubFrom" -> /\ sv # <<>> /\ r.oview \in SeqRange(sv)
+                          /\ BinOfRec(r) = SubFromOrg(sv, Bin(r.oseg, r.oax, r.oview, r.otang, r.otof))
+    [] r.e = "SubBP" -> /\ sv # <<>> /\ r.view \in 0..(Len(sv) - 1)
+                        /\ PairsExplain(c, SubOrgBin(sv, BinOfRec(r)), r, FALSE)
+    [] r.e = "SubCmp" -> /\ r.ge = SubGE(c, r.va, c, r.vb) /\ r.eq = SubEq(c, r.va, c, r.vb) /\ r.ne = ~r.eq
+    \* a subset against the full data: "if (this->contains_full_data()) return org >= proj else false"; the other
+    \* way round and equality: "true only if the types are the same"
+    [] r.e = "SubMix" -> /\ r.ge = (Len(r.va) = NumViewsOf(c)) /\ r.le = FALSE /\ r.eq = FALSE
+    \* ---- equality and order of two data descriptions (each line carries both)
+    [] r.e = "Cmp" -> /\ DescOk(r.a) /\ DescOk(r.b)
+                      /\ LET a == CfgOf(r.a)  b == CfgOf(r.b)  same == r.a.geom = r.b.geom IN
+                         /\ r.eq = (same /\ CfgEq(a, b)) /\ r.ne = ~r.eq
+                         /\ r.ge = (same /\ CfgGE(a, b)) /\ r.le = (same /\ CfgGE(b, a))
+    \* ---- comparisons of detection positions, pairs of them, bins
+    [] r.e = "DPCmp" -> LET x == << r.x[1], r.x[2], r.x[3] >>  y == << r.y[1], r.y[2], r.y[3] >> IN
+                        /\ r.lt = DPLt(x, y) /\ r.gt = DPLt(y, x) /\ r.eq = DPEq(x, y) /\ r.ne = ~DPEq(x, y)
+    [] r.e = "DPPCmp" -> LET p == << << r.p1[1], r.p1[2], r.p1[3] >>, << r.p2[1], r.p2[2], r.p2[3] >>, r.pt >>
+                             q == << << r.q1[1], r.q1[2], r.q1[3] >>, << r.q2[1], r.q2[2], r.q2[3] >>, r.qt >> IN
+                         /\ r.eq = DPPEq(p, q) /\ r.ne = ~DPPEq(p, q)
+    [] r.e = "BinCmp" -> /\ r.eq = BinRecEq(r.x, r.y) /\ r.ne = ~BinRecEq(r.x, r.y)
+                         /\ r.lt = BinRecLt(r.x, r.y) /\ r.gt = BinRecLt(r.y, r.x)
+    \* ---- scanners
+    [] r.e = "Scanner" -> ScannerOk(r)
+    [] r.e = "ScCmp" -> ScCmpOk(r)
     [] OTHER -> FALSE
 
 \* An unexplained line is attributed to a known finding only by the configuration class and event
 \* kinds named in known_findings.jsonl (C01-truncseg: axial tables of compressed data whose last
 \* segment is truncated to a single ring difference); everything else is "new".
 TruncSegs(cc) == { s \in Segs(cc) : s # 0 /\ Compressed(cc, s) /\ SegMinRD(cc, s) = SegMaxRD(cc, s) }
+DiffersOutsideTof(a, b) == (\E f \in ScIntFields : a[f] # b[f]) \/ (\E f \in ScFxFields : Abs(a[f] - b[f]) >= 1024)
 Classify(r, cc) ==
-  IF cc = NoCfg THEN "new"
+  \* lines that carry their own configurations
+  IF r.e = "Scanner" THEN (IF r.predefined /\ ~r.consistent /\ ~r.err /\ ScDerivedOk(r.s) /\ ~ScIntFactsOk(r.s) THEN "C01-dbinconsistent" ELSE "new")
+  \* C01-tofscannereq: two TOF-ready scanners / data descriptions over them compare equal although a non-TOF parameter differs
+  ELSE IF r.e = "ScCmp" THEN (IF r.eq /\ r.ne = ~r.eq /\ r.a.tofReady /\ r.b.tofReady /\ r.a.maxT = r.b.maxT /\ DiffersOutsideTof(r.a, r.b) THEN "C01-tofscannereq" ELSE "new")
+  ELSE IF r.e = "Cmp" THEN (IF r.how = "other-scanner" /\ r.a.maxT > 0 /\ r.b.maxT > 0 /\ r.a.maxT = r.b.maxT /\ r.a.N # r.b.N THEN "C01-tofscannereq" ELSE "new")
+  ELSE IF cc = NoCfg THEN "new"
+  \* C01-subsetdup: a view subset with a repeated view is accepted
+  ELSE IF r.e = "Sub" THEN (IF Len(r.views) >= 2 /\ (\A i \in 1..Len(r.views) : r.views[i] \in Views(cc)) /\ (\E i, j \in 1..Len(r.views) : i # j /\ r.views[i] = r.views[j]) THEN "C01-subsetdup" ELSE "new")
+  \* C01-eventofmash: pair counts of data with an even TOF mashing factor
+  ELSE IF r.e = "BN" /\ cc.tofMash > 0 /\ cc.tofMash % 2 = 0 /\ ~r.spatialOnly THEN "C01-eventofmash"
   ELSE IF r.e \in {"RP", "PB"} /\ (\E s \in TruncSegs(cc) : Abs(r.r2 - r.r1) = Abs(SegMinRD(cc, s))) THEN "C01-truncseg"
-  ELSE IF r.e \in {"RPS", "BP", "BD"} /\ r.seg \in TruncSegs(cc) THEN "C01-truncseg"
+  ELSE IF r.e \in {"RPS", "BP", "BD", "BN", "SubBP"} /\ r.seg \in TruncSegs(cc) THEN "C01-truncseg"
   ELSE "new"
 
-Init == l = 1 /\ c = NoCfg /\ bad = <<>>
+Init == l = 1 /\ c = NoCfg /\ sv = <<>> /\ bad = <<>>
 Next == /\ l <= Len(TraceLog)
         /\ LET r == TraceLog[l] IN
            /\ c' = IF r.e = "Config" THEN CfgOf(r) ELSE c
+           /\ sv' = IF r.e = "Config" THEN <<>> ELSE IF r.e = "Sub" THEN r.views ELSE sv
            /\ LET okr == IF r.e = "Config" THEN ConfigOk(r) ELSE Explains(r)
                   cls == IF okr THEN "ok" ELSE Classify(r, IF r.e = "Config" THEN CfgOf(r) ELSE c) IN
               \* new unexplained lines are all kept (cap 500); of a known class only the first 20 witnesses
@@ -89,7 +190,7 @@ Next == /\ l <= Len(TraceLog)
                      ELSE IF cls = "new" THEN (IF Len(SelectSeq(bad, LAMBDA x : x[2] = "new")) < 500 THEN Append(bad, <<l, cls>>) ELSE bad)
                      ELSE (IF Len(SelectSeq(bad, LAMBDA x : x[2] = cls)) < 20 THEN Append(bad, <<l, cls>>) ELSE bad)
         /\ l' = l + 1
-Spec == Init /\ [][Next]_<<l, c, bad>>
+Spec == Init /\ [][Next]_<<l, c, sv, bad>>
 
 \* evaluated in the final state only (no successor): prints the unexplained lines
 Done == l > Len(TraceLog) => (bad = <<>> \/ PrintT(<<"UNEXPLAINED", bad>>))
